@@ -70,6 +70,24 @@ Proof. exact roundtrip_sorted. Qed.
 Print Assumptions c20_url_roundtrip_sorted_keys.
 
 (* ---- defects of the unchanged code: inside the property's domain, outside the guard ---- *)
+
+(* what comes back for EVERY URL of the domain (valid driver name and host, encodable text, any port,
+   any dict), defects included: the password only if there is a username, and the query as parse_qsl
+   and the accumulation loop rebuild it from the rendered pairs *)
+Theorem c20_url_roundtrip_domain : forall uw u, domain uw u = true ->
+  roundtrip uw u =
+  Ok (mkUrl (u_drv u) (u_user u) (if has_some (u_user u) then u_pass u else None) (u_host u) (u_port u)
+            (u_db u) (accumulate (query_pairs (u_query u)))).
+Proof. exact roundtrip_domain. Qed.
+Print Assumptions c20_url_roundtrip_domain.
+
+(* the guard excludes exactly the defective region: every URL of the domain outside [wf] comes back
+   as a different URL *)
+Theorem c20_guard_exact : forall uw u, domain uw u = true -> wf uw u = false ->
+  exists u', roundtrip uw u = Ok u' /\ ~ url_eq u' u.
+Proof. exact guard_exact. Qed.
+Print Assumptions c20_guard_exact.
+
 Theorem c20_singleton_sequence_refuted : forall uw, exists u u',
   domain uw u = true /\ roundtrip uw u = Ok u' /\ ~ url_eq u' u.
 Proof. exact singleton_sequence_refuted. Qed.
@@ -154,3 +172,8 @@ Proof. vm_compute. reflexivity. Qed.
 (* ill-formed UTF-8 is replaced, truncated sequence = one U+FFFD: %E2%82A -> U+FFFD 'A' *)
 Example c20_ex_replace : unquote [37; 69; 50; 37; 56; 50; 65] = [0xFFFD; 65].
 Proof. vm_compute. reflexivity. Qed.
+(* the hypotheses of c20_guard_exact are satisfiable: URL.create("x", query={"a": ("x",)}) *)
+Example c20_ex_outside_guard :
+  domain uw0 (mkUrl [120] None None None None None [([97], QSeq [[120]])]) = true /\
+  wf uw0 (mkUrl [120] None None None None None [([97], QSeq [[120]])]) = false.
+Proof. split; vm_compute; reflexivity. Qed.
